@@ -228,13 +228,27 @@ CLAIMS = [
                       "rules (findings/candidates/C14: mid-line block comment creeping, pun recognised only after parenthesis removal (2), "
                       "layout(ignore) blank line before `=`); they are documented in DESIGN.md, not suppressed.",
     },
+    {
+        "id": "C18",
+        "technique": "static analysis: who-may-construct + MIR dominance gates for the IR validators, complete audited inventory of panic-only sites of the lowering passes (typed HIR: match arms, let-else, asserts, unwrap/expect), arm tables of the match-classification functions",
+        "level_text": "Decides necessary conditions of 'lowers without internal error, IR valid': BranchJoinProgram / SpsLowProgram exist only "
+                      "on the Ok edge of their validators and the closed-root test; the CLI route chains the three pipelines, the closed "
+                      "root is checked before conversion, the stack is analysed twice and the second analysis is published; each of the 31 "
+                      "places where a lowering pass can only panic is an audited invariant with a re-checked side condition, a validator, "
+                      "or a listed known finding (a new one is a violation); is_coprod_pattern / is_coprod_match / the universal "
+                      "jump-table test are the audited tables. The inventory reported three confirmed defects of the pinned tree "
+                      "(F21-F23: accepted programs on which `zydeco build` panics), recorded as known findings.",
+        "level_note": "NOT decided: that the validators establish the stated IR invariants, nor that no accepted program violates an audited "
+                      "invariant (each is argued from the checker's guarantees, not proved). Emitters are infallible by type. LLVM support "
+                      "is outside ('where supported').",
+    },
 ]
 
 _PENDING = "check not built yet in this round (static rule designed in DESIGN.md, implementation pending)"
 NOT_APPLICABLE = [
     {"property_id": "C20", "reason": "behavioural equation through a 2800-line type-directed translation; no clause is both visible in the shape of elaborate/monadic/* and a necessary condition of the equation (DESIGN.md C20)"},
 ] + [{"property_id": p, "reason": _PENDING} for p in
-     ["C18", "C19"]]
+     ["C19"]]
 
 NOTES = ("Static analysis only: every verdict is computed from /repo's current working tree by the zyq rustc driver "
          "(facts) and repository-specific rules; nothing executes zydeco. Exit 2 (no VIOLATION line) means the tree could not "
